@@ -53,6 +53,12 @@ def SumNp : Sum Out (List Prm) → Prop
   | .inl o => o.np = true
   | .inr _ => True
 
+theorem spreadOut_np (v : GoVal) : SumNp (spreadOut v) := by
+  unfold spreadOut
+  split
+  · simp [SumNp, Out.np]
+  · split <;> simp [SumNp, Out.np]
+
 theorem np_of_bool (o : Out) (h : o.isBoolOrNotOk) (hp : o.np = true) : o.np = true ∧ o.isBoolOrNotOk := ⟨hp, h⟩
 
 mutual
@@ -145,7 +151,7 @@ theorem sParam_np (p : EParam) (cur orig : GoVal) : SumNp (sParam p cur orig) :=
     have h := sPath_np pp cur orig
     generalize sPath pp cur orig = r at h
     cases r with
-    | ok v => simp only []; split <;> simp [SumNp, Out.np]
+    | ok v => simp only []; exact spreadOut_np v
     | panic => simp [Out.np] at h
     | _ => simp [SumNp, Out.np]
   | logic l =>
@@ -153,7 +159,7 @@ theorem sParam_np (p : EParam) (cur orig : GoVal) : SumNp (sParam p cur orig) :=
     have h := sLogic_np l cur orig
     generalize sLogic l cur orig = r at h
     cases r with
-    | ok v => simp only []; split <;> simp [SumNp, Out.np]
+    | ok v => simp only []; exact spreadOut_np v
     | panic => simp [Out.np] at h
     | _ => simp [SumNp, Out.np]
 termination_by structural p
